@@ -119,6 +119,9 @@ def cases(tier, seed):
         shape = SHAPE_OF.get(cid.split('@')[0], cid.split('@')[0])
         kw = dict(kw)
         out.append((cid, dict(shape=shape, kw=kw, split=split, level=level)))
+    # sequences of calls on the same objects (decided with C10's history machinery: the final problem equals that of fresh objects)
+    # -- the portfolio object was wrapped in a structured asset (set up once) before it is set up on its own
+    out.append(('history_standalone_after_being_wrapped_in_a_structured_asset', common.delegated('c10', pf='dicts', final='h', histories=[['wrapped']])))
     return out
 
 
